@@ -83,6 +83,28 @@ pub const SUGAR_EXPRS: [&str; 16] = [
     "f(T()(x, y))",
 ];
 
+/// Expression contexts a sugared expression can be nested in.
+pub const EXPR_CONTEXTS: [&str; 18] = [
+    "a[{s}]",
+    "a[{s}][0]",
+    "a[0][{s}]",
+    "a[{s}][0][1]",
+    "a[1][{s}][0]",
+    "c.out[{s}]",
+    "cs[{s}].out",
+    "cs[{s}].out[0]",
+    "f({s})",
+    "f(1, {s})",
+    "f({s}, 1)",
+    "[{s}, 1]",
+    "[1, {s}]",
+    "{s} ? 1 : 2",
+    "1 ? {s} : 2",
+    "1 ? 2 : {s}",
+    "-({s})",
+    "2 * ({s})",
+];
+
 pub fn check_completeness(src: &str, dir: &Path, case: &Value) -> Vec<Violation> {
     let mut out = Vec::new();
     let files = runner::write_project(dir, &[("p.circom", src)]);
@@ -126,7 +148,7 @@ pub fn check_completeness(src: &str, dir: &Path, case: &Value) -> Vec<Violation>
 // ---------------------------------------------------------------------------------------------
 // Faithfulness
 
-pub const PAIR_SUPPORT: &str = "pragma circom 2.1.0;\ntemplate T2(p) {\n    signal input in1;\n    signal input in2;\n    signal output out;\n    out <== in1 * in2 + p;\n}\ntemplate T1() {\n    signal input in;\n    signal output out;\n    out <== in + 1;\n}\ntemplate TN() {\n    signal input in;\n    in * in === in;\n}\ntemplate TO2() {\n    signal input in;\n    signal output o1;\n    signal output o2;\n    o1 <== in;\n    o2 <== in + 1;\n}\n";
+pub const PAIR_SUPPORT: &str = "pragma circom 2.1.0;\ntemplate T2(p) {\n    signal input in1;\n    signal input in2;\n    signal output out;\n    out <== in1 * in2 + p;\n}\ntemplate T1() {\n    signal input in;\n    signal output out;\n    out <== in + 1;\n}\ntemplate T3() {\n    signal input i1;\n    signal input i2;\n    signal input i3;\n    signal output out;\n    out <== i1 * i2 + i3;\n}\ntemplate TN() {\n    signal input in;\n    in * in === in;\n}\ntemplate TO2() {\n    signal input in;\n    signal output o1;\n    signal output o2;\n    o1 <== in;\n    o2 <== in + 1;\n}\n";
 
 /// (name, sugared body, expanded body); both are the body of `template M(n)` after the common
 /// prologue. `ANON` is the hand-chosen name of the component in the expansion.
@@ -154,6 +176,32 @@ pub fn pairs() -> Vec<(&'static str, String, String)> {
     add("anon-bare-statement-no-output", "TN()(a);", "component ANON = TN();\n    ANON.in <== a;");
     add("anon-parallel", "s1 <== parallel T1()(a);", "component ANON = parallel T1();\n    ANON.in <== a;\n    s1 <== ANON.out;");
     add("anon-in-branch", "if (n > 1) {\n        s1 <== T1()(a);\n    }", "component ANON;\n    if (n > 1) {\n        ANON = T1();\n        ANON.in <== a;\n        s1 <== ANON.out;\n    }");
+    // Every order of the named inputs x every operator assignment, for two and three inputs.
+    let ops = ["<==", "<--"];
+    let args2 = ["a * a * b", "b"];
+    for perm in [[0usize, 1], [1, 0]] {
+        for opmask in 0..4usize {
+            let op = |i: usize| ops[(opmask >> i) & 1];
+            let named: Vec<String> = perm.iter().map(|i| format!("in{} {} {}", i + 1, op(*i), args2[*i])).collect();
+            let sugar = format!("s1 <== T2(n)({});", named.join(", "));
+            let plain = format!("component ANON = T2(n);\n    ANON.in1 {} {};\n    ANON.in2 {} {};\n    s1 <== ANON.out;", op(0), args2[0], op(1), args2[1]);
+            v.push(("anon-named-2", sugar, plain));
+        }
+    }
+    let args3 = ["a * a * b", "b", "a + b"];
+    for perm in [[0usize, 1, 2], [0, 2, 1], [1, 0, 2], [1, 2, 0], [2, 0, 1], [2, 1, 0]] {
+        for opmask in 0..8usize {
+            let op = |i: usize| ops[(opmask >> i) & 1];
+            let named: Vec<String> = perm.iter().map(|i| format!("i{} {} {}", i + 1, op(*i), args3[*i])).collect();
+            let sugar = format!("s1 <== T3()({});", named.join(", "));
+            let plain = format!(
+                "component ANON = T3();\n    ANON.i1 {} {};\n    ANON.i2 {} {};\n    ANON.i3 {} {};\n    s1 <== ANON.out;",
+                op(0), args3[0], op(1), args3[1], op(2), args3[2]
+            );
+            v.push(("anon-named-3", sugar, plain));
+        }
+    }
+    let mut add = |name: &'static str, sugar: &str, plain: &str| v.push((name, sugar.to_string(), plain.to_string()));
     add("anon-expression-input", "s1 <== T2(n + 1)(a + b, a * b);", "component ANON = T2(n + 1);\n    ANON.in1 <== a + b;\n    ANON.in2 <== a * b;\n    s1 <== ANON.out;");
     v
 }
@@ -260,6 +308,12 @@ pub fn run(run: &Run) {
     let root = work_dir("c18");
     let mut exprs: Vec<String> = SUGAR_EXPRS.iter().map(|s| s.to_string()).collect();
     let _ = Tier::Quick;
+    // Every sugared expression inside every expression context.
+    for ctx in EXPR_CONTEXTS {
+        for sugar in SUGAR_EXPRS {
+            exprs.push(ctx.replace("{s}", sugar));
+        }
+    }
     {
         for a in SUGAR_EXPRS {
             for b in SUGAR_EXPRS.iter().take(8) {
@@ -300,7 +354,7 @@ pub fn run(run: &Run) {
     let all = pairs();
     run.set_extra("faithfulness_pairs", json!(all.len()));
     par_each(&all, |i, (name, sugar, plain)| {
-        let case = json!({"kind": "pair", "name": name});
+        let case = json!({"kind": "pair", "name": name, "index": i});
         run.watch(&case);
         let vs = check_pair(name, sugar, plain, &root.join(format!("pair{i}")), &case);
         run.eval(1);
@@ -320,9 +374,9 @@ pub fn replay(case: &Value) -> Vec<Violation> {
             check_completeness(&src, &root, case)
         }
         Some("pair") => {
-            let name = case["name"].as_str().unwrap_or("");
-            match pairs().into_iter().find(|p| p.0 == name) {
-                Some((n, s, p)) => check_pair(n, &s, &p, &root, case),
+            let all = pairs();
+            match case["index"].as_u64().and_then(|i| all.get(i as usize)) {
+                Some((n, s, p)) => check_pair(n, s, p, &root, case),
                 None => Vec::new(),
             }
         }
